@@ -418,6 +418,52 @@ def gen_deterministic(rng, lzo, jpeg):
             sc, ex = _assemble(fmt, sf, 8, 8, ["raw"], [0], 0, msgs)
             out.append({"script": sc, "expect": ex, "tags": ["det:cursor-empty-after-nonempty"], "fmt": fmt.name, "sfmt": sf.name,
                         "encs": ["raw"], "size": (8, 8), "seg": [0]})
+    # ---- compressed payloads that need several read pieces: Zlib/ZRLE read RFB_BUFFER_SIZE (307200)
+    #      bytes at a time, Tight ZLIB_BUFFER_SIZE (30000); output must continue where it stopped
+    def big_session(fmt, W, H, rects, tagname):
+        sess = E.Session(rng, fmt, W, H, lzo=lzo)
+        msgs = []
+        for (enc, x, y, w, h, kw) in rects:
+            sess.z = []
+            sess.force_content = kw.get("content", "noisefast")
+            if kw.get("level0"):
+                sess.zs[sess.Z_ZLIB].co = zlib.compressobj(0)
+            sess.force_tile = [("raw",)] * 64 if enc == "zrle" and kw.get("rawtiles") else None
+            sess.force_sid, sess.force_resets = kw.get("sid"), kw.get("resets")
+            r = sess.enc_rect(enc, x, y, w, h, **({"force": kw["force"]} if "force" in kw else {}))
+            clen = max([len(z) for (_i, z, _p) in sess.z] + [0])
+            if "want" in kw:
+                assert clen == kw["want"], (clen, kw["want"])
+            sess.tag("%s:pieces=%d" % (enc, -(-clen // (30000 if enc == "tight" else 307200))))
+            msgs.append((list(sess.z), E.fbu([r]), ("msg", crc_fb(sess), W, H, ["upd:%d:%d:%d:%d" % (x, y, w, h), "fin"])))
+        sc, ex = _assemble(fmt, sf, W, H, sorted(set(r[0] for r in rects)), [0], 1, msgs)
+        out.append({"script": sc, "expect": ex, "tags": list(sess.tags) + [tagname], "fmt": fmt.name, "sfmt": sf.name,
+                    "encs": sorted(set(r[0] for r in rects)), "size": (W, H), "seg": [0]})
+    f32, f16, f8 = E.FMT_BY_NAME["rgb888le"], E.FMT_BY_NAME["rgb565le"], E.FMT_BY_NAME["bgr233"]
+    small = {"content": "few"}
+    big_session(f32, 400, 300, [("zlib", 0, 0, 400, 300, {}), ("zlib", 3, 3, 20, 10, small), ("zlib", 0, 0, 400, 300, {})], "det:zlib-2-pieces")
+    big_session(f32, 500, 340, [("zlib", 0, 0, 500, 340, {}), ("zlib", 1, 1, 9, 9, small)], "det:zlib-3-pieces")
+    big_session(f16, 520, 330, [("zlib", 0, 0, 520, 330, {}), ("zlib", 0, 0, 5, 5, small)], "det:zlib-2-pieces-16bpp")
+    for target in (307199, 307200, 307201, 614400, 614401):
+        done = False
+        for warm in (False, True):          # fresh stream (2 header bytes) or a stream already in use
+            for cand in range(target - 80, target):
+                co = zlib.compressobj(0)
+                if warm:
+                    co.compress(b"w" * 21); co.flush(zlib.Z_SYNC_FLUSH)
+                if len(co.compress(bytes(cand)) + co.flush(zlib.Z_SYNC_FLUSH)) != target:
+                    continue
+                hh = next((d for d in range(100, 2500) if cand % d == 0 and cand // d <= 6000), None)
+                if hh and not done:
+                    done = True
+                    pre = [("zlib", 0, 0, 7, 3, {"level0": True, "content": "few"})] if warm else []
+                    big_session(f8, cand // hh, hh, pre + [("zlib", 0, 0, cand // hh, hh, {"level0": not warm, "want": target}),
+                                                           ("zlib", 0, 0, 7, 3, small)], "det:zlib-boundary-%d" % target)
+    big_session(f32, 400, 300, [("zrle", 0, 0, 400, 300, {"rawtiles": True}), ("zrle", 5, 5, 70, 70, small)], "det:zrle-2-pieces")
+    big_session(f32, 200, 150, [("tight", 0, 0, 200, 150, {"force": "copy", "sid": 1, "resets": 0}),
+                                ("tight", 0, 0, 200, 150, {"force": "paln", "sid": 1, "resets": 0}),
+                                ("tight", 2, 2, 100, 120, {"force": "grad", "sid": 1, "resets": 0}),
+                                ("tight", 0, 0, 12, 12, {"force": "copy", "sid": 1, "resets": 0, "content": "few"})], "det:tight-pieces")
     # ---- Tight JPEG rectangle carrying a stream reset (library only: JPEG is outside the model)
     for name in ("rgb565le", "rgb888le"):
         fmt = E.FMT_BY_NAME[name]
